@@ -18,28 +18,29 @@ import (
 const verifDir = "/verif"
 
 type HSpec struct {
-	Name        string            `json:"name"`
-	Pkgs        []string          `json:"pkgs"`
-	Entry       string            `json:"entry"` // "<pkg path relative to module>.<Func>", e.g. "common.ZZ_C07_A"
-	Files       map[string]string `json:"files"` // repo-relative overlay path -> /verif-relative source
-	InitPkgs    []string          `json:"init_pkgs"`
-	Tiers       []string          `json:"tiers"` // default both
-	Solver      string            `json:"solver"`
-	Cross       []string          `json:"cross"`
-	TimeoutMs   int               `json:"timeout_ms"`
-	MaxPreempts int               `json:"max_preempts"`
-	MaxSteps    int64             `json:"max_steps"`
-	MaxFanout   int               `json:"max_fanout"`
-	MaxPaths    int64             `json:"max_paths"`
-	Covers      []string          `json:"covers"` // labels that must be reached
-	Decides     string            `json:"decides"`
-	Bounds      map[string]string `json:"bounds"` // tier -> text
-	Stubs       []string          `json:"stubs"`
-	Assumptions []string          `json:"assumptions"`
-	NoReplay    bool              `json:"no_replay"`
-	IntMode     bool              `json:"int_mode"`
-	MaxWallS    map[string]int    `json:"max_wall_s"`
-	StubFiles   map[string]string `json:"stub_files"` // native replay only: rewrite (see replay.go)
+	Name          string            `json:"name"`
+	Pkgs          []string          `json:"pkgs"`
+	Entry         string            `json:"entry"` // "<pkg path relative to module>.<Func>", e.g. "common.ZZ_C07_A"
+	Files         map[string]string `json:"files"` // repo-relative overlay path -> /verif-relative source
+	InitPkgs      []string          `json:"init_pkgs"`
+	Tiers         []string          `json:"tiers"` // default both
+	Solver        string            `json:"solver"`
+	Cross         []string          `json:"cross"`
+	TimeoutMs     int               `json:"timeout_ms"`
+	MaxPreempts   int               `json:"max_preempts"`
+	CollisionFree bool              `json:"collision_free"`
+	MaxSteps      int64             `json:"max_steps"`
+	MaxFanout     int               `json:"max_fanout"`
+	MaxPaths      int64             `json:"max_paths"`
+	Covers        []string          `json:"covers"` // labels that must be reached
+	Decides       string            `json:"decides"`
+	Bounds        map[string]string `json:"bounds"` // tier -> text
+	Stubs         []string          `json:"stubs"`
+	Assumptions   []string          `json:"assumptions"`
+	NoReplay      bool              `json:"no_replay"`
+	IntMode       bool              `json:"int_mode"`
+	MaxWallS      map[string]int    `json:"max_wall_s"`
+	StubFiles     map[string]string `json:"stub_files"` // native replay only: rewrite (see replay.go)
 }
 
 type Spec struct {
@@ -146,6 +147,7 @@ func runHarness(h HSpec, tier int, seed int64, trace bool, logDir string) *HResu
 	cfg.CrossSolvers = h.Cross
 	cfg.IntMode = h.IntMode
 	cfg.MaxPreempts = h.MaxPreempts
+	cfg.CollisionFree = h.CollisionFree
 	if h.TimeoutMs > 0 {
 		cfg.TimeoutMs = h.TimeoutMs
 	}
